@@ -206,6 +206,11 @@ func Check(root, id, tier string, seed uint64) (*Result, error) {
 			ccfgs = append(ccfgs, spec.RandomConfig(corpus, seed*977+uint64(i)*31+5))
 		}
 		cases = C14Cases(corpus, ccfgs, seed, tier, n)
+		// one invocation that generates several files (a small program keeps the runs short)
+		for _, k := range []int{2, 6} {
+			mf := MultiFile(c18Base(), k)
+			cases = append(cases, C14Cases(mf, []spec.Config{mf.Config}, seed+uint64(k), tier, nr)...)
+		}
 		for i, rp := range randoms {
 			cases = append(cases, C14Cases(rp, C14ConfigsFor(rp), seed+uint64(i)+1, tier, nr)...)
 		}
